@@ -177,6 +177,22 @@ def restrict(tree, selected, fields_found):
     return (label, out)
 
 
+def hoist(tree):
+    """The rows of the whole subtree as rows of the top element: what a selector like m/k or .//k sees from it
+    (the instance tree decides, whatever the declared types are)."""
+    label, items = tree
+    rows = []
+
+    def walk(its):
+        for item in its:
+            if item[0] == 'elem':
+                walk(item[1][1])
+            else:
+                rows.append(item)
+    walk(items)
+    return (label, rows)
+
+
 # --- ID / IDREF / IDREFS ----------------------------------------------------------------------------
 
 def judge_ids(occurrences, version):
